@@ -48,3 +48,31 @@ func cmdProbeShort() {
 		}
 	}
 }
+
+// cmdProbeHyphen: debugging aid: random search for small inputs with a hyphen before a line break on
+// which tokenizing Normalize's output differs from tokenizing the input.
+func cmdProbeHyphen() {
+	r := newRng(7, "probehyphen")
+	c := classifier.NewClassifier(0.8)
+	syms := []string{"ab", "cd", "-\n", " ", "\n", "ef ", "-", "x-\n", "\t", "\r\n", "gh", " \n", "(", "&", "—\n", "A.", "ii."}
+	found := 0
+	for i := 0; i < 2000000 && found < 12; i++ {
+		var s string
+		for k := 2 + r.intn(10); k > 0; k-- {
+			s += syms[r.intn(len(syms))]
+		}
+		in := []byte(s)
+		out := c.Normalize(in)
+		t1, _ := classifier.VerifTokenize(in, true)
+		t2, _ := classifier.VerifTokenize(out, true)
+		bad := len(t1) != len(t2)
+		for j := 0; !bad && j < len(t1); j++ {
+			bad = t1[j].Word != t2[j].Word || t1[j].Line != t2[j].Line
+		}
+		if bad {
+			found++
+			fmt.Printf("%q -> %q : %v VS %v\n", s, out, t1, t2)
+		}
+	}
+	fmt.Println("found", found)
+}
